@@ -153,7 +153,8 @@ func (g *Global) LLString() string {
 		fmt.Fprintf(buf, ", partition %s", quote(g.Partition))
 	}
 	if g.Comdat != nil {
-		if g.Comdat.Name == g.Name() {
+		// The comdat name may only be omitted if it is the name of a named global.
+		if !g.IsUnnamed() && g.Comdat.Name == g.GlobalName {
 			buf.WriteString(", comdat")
 		} else {
 			fmt.Fprintf(buf, ", %s", g.Comdat)
